@@ -113,7 +113,11 @@ impl Out {
         writeln!(self.cases, "{}", treeop::encode_include_case(tree)).unwrap();
         writeln!(self.imp, "{}", treeop::run_include(tree)).unwrap();
         writeln!(self.tags, "{}", tag).unwrap();
-        writeln!(self.expect, "-").unwrap();
+        // every fourth tree also through the absolute-pattern oracle (implementation alone)
+        match if self.n % 4 == 0 { treeop::include_abs_oracle(tree) } else { None } {
+            None => writeln!(self.expect, "-").unwrap(),
+            Some(m) => writeln!(self.expect, "!{}", m).unwrap(),
+        }
         self.n += 1;
     }
     fn update(&mut self, c: &treeop::UpdateCase) {
